@@ -177,6 +177,9 @@ class DyadCarrier(object):
             raise ValueError("Setting entries to other than 0 makes no sense")
         if not isnullslice(subscript[0]) and not isnullslice(subscript[1]):
             raise IndexError("Only full-column or full-row slices can be set, e.g. [:, 3] or [3:8, :]")
+        if isnullslice(subscript[0]) and isnullslice(subscript[1]):
+            self.u, self.v = [], []  # The entire matrix is set to zero
+            return
         for ui, vi in zip(self.u, self.v):
             if not isnullslice(subscript[0]):
                 ui[subscript[0]] = value
